@@ -35,7 +35,8 @@ def to_string(node):
     op = node[0]
     s = to_string
     if op == "const":
-        return repr(float(node[1]))
+        # parenthesised: "-1.0 ** 2" would be parsed as -(1.0 ** 2)
+        return "(%r)" % float(node[1])
     if op == "vec":
         return "as_vector((" + ", ".join(s(x) for x in node[1:]) + ",))"
     if op == "mat":
